@@ -230,6 +230,35 @@ func honest(r *mon.Run, c Case) {
 			break
 		}
 	}
+	// specification-exactness of key validation: a public key with a torsion component (canonical, not of small order,
+	// outside the prime-order subgroup) is a VALID key under RFC 9381 5.4.5; a prover who knows x grinds the nonce until
+	// c*T_j = O, and the proof verifies, with the output proof-to-hash gives. For the first nonce with c*T_j != O the
+	// same construction must be rejected.
+	if c.Idx%2 == 0 {
+		x := gen.RandModL(rng)
+		for j := 1; j < 8; j++ {
+			tj := gen.Tors[j]
+			rejectedSeen := false
+			for try := 0; try < 200; try++ {
+				k := gen.RandModL(rng)
+				pkm, pim, cc := ref.VRFProveMixedKey(x, tj, alpha, v10, k)
+				valid := tj.Mul(cc).IsIdentity()
+				if !valid && rejectedSeen {
+					continue
+				}
+				rok, rb := ref.VRFVerify(pkm, pim, alpha, v10)
+				if rok != valid {
+					mon.Fatalf("ORACLE: reference verifier and the mixed-order-key construction disagree")
+				}
+				if valid {
+					expectVerify(r, c, "mixed-order-key-valid-proof", v10, pkm, pim, alpha, true, rb)
+					break
+				}
+				rejectedSeen = true
+				expectVerify(r, c, "mixed-order-key-invalid-proof", v10, pkm, pim, alpha, false, nil)
+			}
+		}
+	}
 	// nonces chosen by the prover (who knows x): k = 0 makes the recomputed commitments U = V = O, k = 1, L-1, the
 	// cofactor and a small value make them the simplest non-trivial points. RFC 9381 ECVRF_verify has no opinion on U
 	// and V beyond the challenge comparison: these proofs are VALID, with the honest output.
@@ -373,7 +402,7 @@ func main() {
 		cases = append(cases, Case{Kind: "badkeys", Idx: i})
 	}
 	r.Parallel(len(cases), func(i int) { runCase(r, cases[i]) })
-	for _, b := range []string{"verify/torsion-shifted-gamma/want=true", "verify/small-order-key-forgery/want=false", "verify/honest/want=true"} {
+	for _, b := range []string{"verify/torsion-shifted-gamma/want=true", "verify/mixed-order-key-valid-proof/want=true", "verify/small-order-key-forgery/want=false", "verify/honest/want=true"} {
 		if r.HistGet(b) == 0 {
 			r.Inconclusive("workload never reached " + b)
 		}
